@@ -43,8 +43,11 @@ def run(ctx):
         return
     _sweep_stale()
     try:
-        for part, shards in (("hdr", 16), ("ofat", 16), ("blk", 16), ("big", 4 if ctx.tier == "quick" else 6), ("bbox", 16), ("prod", 16)):
-            ctx.run_harness(exe, ["--part", part], shards=shards)
+        # every part gets its share of the time that is left (a part that ends early leaves its time to the later ones)
+        parts = [("hdr", 16, 1), ("ofat", 16, 8), ("blk", 16, 2), ("big", 4 if ctx.tier == "quick" else 6, 2), ("prod", 16, 4), ("bbox", 16, 3)]
+        for i, (part, shards, share) in enumerate(parts):
+            budget = max(5.0, (ctx.remaining() - 10) * share / sum(p[2] for p in parts[i:]))
+            ctx.run_harness(exe, ["--part", part, "--budget", "%.0f" % budget], shards=shards)
     finally:
         _sweep_stale()
     ctx.assume("domain of an option vector: changesets only for XML (.osm/.osh) and OPL; deleted objects only where the vector has a visible "
